@@ -4,6 +4,7 @@
 // miekg messages / raw packets.
 //
 //	Q:<id>[~<mask>]:<opcode>:<flags>:<qtype>:<qlen>:<opt>
+//	    <qtype> may be written <qtype>.<qclass> for a class other than IN
 //	    mask    0x20 spelling of the question name (bit i upper-cases its i-th letter)
 //	    flags   subset of r(RD) a(AD) c(CD), "-" for none
 //	    qlen    wire length of the question section (name + 4), checked
@@ -54,6 +55,7 @@ type aOpt struct {
 }
 
 type aQ struct {
+	qclass     int // 0 = IN (written only when it is not)
 	mask       int // 0x20 spelling: bit i upper-cases the i-th letter of the question name
 	id, opcode int
 	rd, ad, cd bool
@@ -114,8 +116,16 @@ func letters(pairs ...any) string {
 }
 
 func (q aQ) String() string {
-	if q.mask != 0 {
-		return fmt.Sprintf("Q:%d~%d:%d:%s:%d:%d:%s", q.id, q.mask, q.opcode, letters("r", q.rd, "a", q.ad, "c", q.cd), q.qtype, q.qlen, q.opt)
+	if q.mask != 0 || (q.qclass != 0 && q.qclass != 1) {
+		ids := fmt.Sprint(q.id)
+		if q.mask != 0 {
+			ids = fmt.Sprintf("%d~%d", q.id, q.mask)
+		}
+		qt := fmt.Sprint(q.qtype)
+		if q.qclass != 0 && q.qclass != 1 {
+			qt = fmt.Sprintf("%d.%d", q.qtype, q.qclass)
+		}
+		return fmt.Sprintf("Q:%s:%d:%s:%s:%d:%s", ids, q.opcode, letters("r", q.rd, "a", q.ad, "c", q.cd), qt, q.qlen, q.opt)
 	}
 	return fmt.Sprintf("Q:%d:%d:%s:%d:%d:%s", q.id, q.opcode, letters("r", q.rd, "a", q.ad, "c", q.cd), q.qtype, q.qlen, q.opt)
 }
@@ -179,7 +189,13 @@ func parseQ(s string) aQ {
 	if maskS != "" {
 		mask = vlib.Atoi(maskS)
 	}
-	return aQ{id: vlib.Atoi(idS), mask: mask, opcode: vlib.Atoi(f[2]),
+	qtS, qcS, _ := strings.Cut(f[4], ".")
+	f[4] = qtS
+	qclass := 0
+	if qcS != "" {
+		qclass = vlib.Atoi(qcS)
+	}
+	return aQ{id: vlib.Atoi(idS), mask: mask, qclass: qclass, opcode: vlib.Atoi(f[2]),
 		rd: strings.Contains(f[3], "r"), ad: strings.Contains(f[3], "a"), cd: strings.Contains(f[3], "c"),
 		qtype: vlib.Atoi(f[4]), qlen: vlib.Atoi(f[5]), opt: parseOpt(f[6])}
 }
@@ -218,7 +234,16 @@ func parseR(s string) aR {
 
 const zone = "c06.test."
 
-func qnameOf(id int) string { return fmt.Sprintf("q%d.%s", id, zone) }
+// qnameOf: the query name of an id. Ids from arpaFrom up live in one of the
+// private-address reverse zones (the AS112 empty zones).
+const arpaFrom = 0x6800
+
+func qnameOf(id int) string {
+	if id >= arpaFrom && id < 0x7000 {
+		return fmt.Sprintf("q%d.10.in-addr.arpa.", id)
+	}
+	return fmt.Sprintf("q%d.%s", id, zone)
+}
 
 // spell applies a 0x20 mask to a name: bit i upper-cases its i-th letter.
 func spell(name string, mask int) string {
@@ -288,7 +313,11 @@ func rawQuery(q aQ) []byte {
 	b = binary.BigEndian.AppendUint16(b, ar)
 	b = append(b, wireName(spell(qnameOf(q.id), q.mask))...)
 	b = binary.BigEndian.AppendUint16(b, uint16(q.qtype))
-	b = append(b, 0, 1)
+	qc := q.qclass
+	if qc == 0 {
+		qc = 1
+	}
+	b = binary.BigEndian.AppendUint16(b, uint16(qc))
 	if q.opt.present {
 		b = append(b, optRaw(q.opt)...)
 	}
@@ -372,6 +401,8 @@ func idOf(rr dns.RR) string {
 	case *dns.NSEC3:
 		n, _ := strconv.ParseUint(v.Salt, 16, 32)
 		return "3" + strconv.Itoa(int(n))
+	case *dns.SOA:
+		return "A0" // the one record the harness does not build itself: an empty zone's SOA
 	case *dns.CNAME:
 		return "C" + strings.TrimPrefix(strings.SplitN(strings.ToLower(v.Target), ".", 2)[0], "q")
 	case *dns.TXT:
